@@ -10,7 +10,7 @@
   its PopContext (and read-only queries) happens in it.  `Inv` is the invariant of DESIGN §6.
 -/
 import GoluaVerif.Proofs.Ctx
-import GoluaVerif.Proofs.CallCtx
+import GoluaVerif.Proofs.Propagate
 namespace GoluaVerif.Props.C07
 open GoluaVerif.Generated.Resources GoluaVerif.Model.Ctx GoluaVerif.Spec.Quota GoluaVerif.Proofs.Ctx
 open GoluaVerif.Model.CallCtx GoluaVerif.Proofs.CallCtx
@@ -260,8 +260,8 @@ panics), after a bracketed call the parents are exactly those before, the invari
 and unless the active context itself was terminated it is still live. -/
 theorem call_keeps_stack_aligned (s : St) (it : Item) (hw : it.wf = true) (hi : Inv s) (hl : s.cur.live = true) :
     (exec s it).1.st.parents = s.parents ∧ Inv (exec s it).1.st ∧
-    ((exec s it).2 ≠ .killed → (exec s it).1.st.cur.live = true) ∧
-    ((exec s it).2 = .killed → (exec s it).1.st.cur.status = StatusKilled) := by
+    ((∀ res, (exec s it).2 ≠ .killed res) → (exec s it).1.st.cur.live = true) ∧
+    (∀ res, (exec s it).2 = .killed res → (exec s it).1.st.cur.status = StatusKilled) := by
   have g := good_item (Acc.start s) it hw hi hl
   exact ⟨g.parents, g.inv, g.live, g.killed⟩
 
@@ -299,13 +299,15 @@ example : (run St.init [.push exDef, .reqCpu 49#64]).cur.due = false ∧
 def exTree : Item :=
   .call exDef [.op (.reqCpu 30#64),
     .call ⟨⟨50#64, 0#64, 0#64⟩, Res.zero, 0#16⟩ [.op (.reqCpu 20#64), .call CtxDef.none [.op (.reqCpu 29#64), .op (.reqCpu 1#64)], .err],
-    .call CtxDef.none [.op (.reqCpu 5#64)]]
+    .call CtxDef.none [.op (.reqCpu 5#64), .err], .call CtxDef.none [.op (.reqCpu 1#64)]]
 
-/-- one tree exhibiting all three statuses: grandchild killed (budget inherited from two levels up),
-child ends in error, a later sibling completes, and the top context is done with everything charged -/
+/-- one tree exhibiting all three statuses: the pcall grandchild is refused a tick by the budget it
+inherited from the child (limit 50), which is therefore killed too and dies alone (its own limit is
+tighter than what the top has left); a sibling ends in error, another completes, and the top context
+is done with everything charged -/
 example : exTree.wf = true ∧
     (exec St.init exTree).1.results.reverse.map (fun r => (r.depth, r.status, r.exit, r.used.Cpu)) =
-      [(3, StatusKilled, .killed, 29#64), (2, StatusError, .error, 49#64), (2, StatusDone, .done, 5#64),
-       (1, StatusDone, .done, 84#64)] ∧ (exec St.init exTree).1.st = St.init := by decide +kernel
+      [(2, StatusKilled, .killed .cpu, 49#64), (2, StatusError, .error, 5#64), (2, StatusDone, .done, 1#64),
+       (1, StatusDone, .done, 85#64)] ∧ (exec St.init exTree).1.st = St.init := by decide +kernel
 
 end GoluaVerif.Props.C07
